@@ -198,7 +198,7 @@ Qed.
 Theorem nsec3_hash_rfc5155 H n iterations salt :
   nsec3_hash H n iterations salt = rfc5155_IH H salt (wire_abs (canon n)) (N.to_nat iterations).
 Proof.
-  unfold nsec3_hash. cbv [hash_salt_after_data hash_iter_from].
+  unfold nsec3_hash. cbv [hash_salt_after_data hash_iter_from hash_owner_lowercased].
   change (H (wire_abs (canon n) ++ salt)) with (rfc5155_IH H salt (wire_abs (canon n)) 0).
   rewrite hash_rounds_IH. f_equal. lia.
 Qed.
@@ -209,3 +209,16 @@ Example nsec3_hash_example :
   c13_hash [[101;120;97;109;112;108;101]] 12 [170;187;204;221] =
   [6;83;104;171;238;215;236;110;159;235;169;107;140;139;195;232;183;145;247;22].
 Proof. vm_compute. reflexivity. Qed.
+
+(* the hash takes the canonical (lower-cased) owner: names that differ in case
+   only hash alike, whatever representation they come in *)
+Lemma canon_idem n : canon (canon n) = canon n.
+Proof. unfold canon. rewrite map_map. apply map_ext. apply lowers_idem. Qed.
+
+Theorem nsec3_hash_canonical H n iterations salt :
+  nsec3_hash H n iterations salt = nsec3_hash H (canon n) iterations salt.
+Proof. rewrite !nsec3_hash_rfc5155, canon_idem. reflexivity. Qed.
+
+Theorem nsec3_hash_case_insensitive H a b iterations salt : name_eqb a b = true ->
+  nsec3_hash H a iterations salt = nsec3_hash H b iterations salt.
+Proof. intros E. apply name_eqb_spec in E. rewrite !nsec3_hash_rfc5155, E. reflexivity. Qed.
